@@ -96,12 +96,25 @@ def defer_measurements(
     """
 
     circuit = transformer_primitives.unroll_circuit_op(circuit, deep=True, tags_to_check=None)
-    terminal_measurements = {op for _, op in find_terminal_measurements(circuit)}
+    # Terminal measurements are identified by position: an equal measurement may occur earlier.
+    terminal_measurements = set(find_terminal_measurements(circuit))
+    # The records of one key keep the order they were made in: if one of them is deferred, all are.
+    deferred_keys = {
+        key
+        for i, moment in enumerate(circuit)
+        for op in moment
+        if protocols.is_measurement(op) and (i, op) not in terminal_measurements
+        for key in protocols.measurement_key_objs(op)
+    }
     measurement_qubits: dict[cirq.MeasurementKey, list[tuple[cirq.Qid, ...]]] = defaultdict(list)
 
-    def defer(op: cirq.Operation, _) -> cirq.OP_TREE:
+    def defer(op: cirq.Operation, moment_index: int | None) -> cirq.OP_TREE:
         # Only measurements can be terminal measurements; other operations need not be hashable.
-        if protocols.is_measurement(op) and op in terminal_measurements:
+        if (
+            protocols.is_measurement(op)
+            and (moment_index, op) in terminal_measurements
+            and not protocols.measurement_key_objs(op) & deferred_keys
+        ):
             return op
         gate = op.gate
         if isinstance(gate, ops.MeasurementGate):
